@@ -16,7 +16,15 @@ def build_registry(modules):
         m = importlib.import_module(mn)
         for cls in getattr(m, 'SPECS', []):
             s = cls()
+            s.key = s.func
             reg.add(s)
+            specs.append(s)
+        for cls in getattr(m, 'VARIANTS', []):
+            # further explorations of a function already under contract (crash / fault hooks
+            # switched on); never used at call sites
+            s = cls()
+            s.key = '%s#%s' % (s.func, s.label)
+            reg.variants[s.key] = s
             specs.append(s)
         for q in getattr(m, 'INLINE', []):
             reg.inline.add(q)
@@ -27,22 +35,63 @@ def build_registry(modules):
     return reg, specs
 
 
+def _verdict_dict(vc, use_cvc5):
+    v = solve.discharge(vc, use_cvc5=use_cvc5)
+    return {
+        'name': v.name, 'status': v.status, 'backend': v.backend, 'time': v.time,
+        'reason': v.reason, 'model': v.model, 'site': v.site, 'func': v.func,
+        'path': list(v.path), 'trivial': v.trivial,
+        'goal': (str(vc.goal)[:600] if v.status != 'discharged' else None),
+    }
+
+
+def discharge_all(vcs, use_cvc5, nproc):
+    """discharge the VCs of one function; with nproc > 1 the (unpicklable) z3 terms are shared
+    with forked children, which send back plain verdict dicts"""
+    import json
+    if nproc <= 1 or len(vcs) <= 6:
+        return [_verdict_dict(vc, use_cvc5) for vc in vcs]
+    nproc = min(nproc, len(vcs))
+    kids = []
+    for k in range(nproc):
+        r, w = os.pipe()
+        pid = os.fork()
+        if pid == 0:
+            os.close(r)
+            try:
+                out = [(i, _verdict_dict(vcs[i], use_cvc5)) for i in range(k, len(vcs), nproc)]
+                data = json.dumps(out, default=str).encode()
+            except BaseException:
+                data = json.dumps({'error': traceback.format_exc()}).encode()
+            with os.fdopen(w, 'wb') as f:
+                f.write(data)
+            os._exit(0)
+        os.close(w)
+        kids.append((pid, r))
+    res = [None] * len(vcs)
+    for pid, r in kids:
+        with os.fdopen(r, 'rb') as f:
+            data = f.read()
+        os.waitpid(pid, 0)
+        out = json.loads(data.decode() or '[]')
+        if isinstance(out, dict):
+            raise RuntimeError('VC worker failed: ' + out.get('error', '?'))
+        for i, vd in out:
+            res[i] = vd
+    for i, vd in enumerate(res):
+        if vd is None:
+            raise RuntimeError('VC worker lost verdict %d' % i)
+    return res
+
+
 def _work(arg):
-    modules, func, use_cvc5 = arg
+    modules, func, use_cvc5, sub = arg
     t0 = time.time()
     try:
         reg, specs = build_registry(modules)
-        spec = reg.specs[func]
+        spec = reg.variants.get(func) or reg.specs[func]
         fr = contract.verify_function(reg, spec)
-        verdicts = []
-        for vc in fr.vcs:
-            v = solve.discharge(vc, use_cvc5=use_cvc5)
-            verdicts.append({
-                'name': v.name, 'status': v.status, 'backend': v.backend, 'time': v.time,
-                'reason': v.reason, 'model': v.model, 'site': v.site, 'func': v.func,
-                'path': list(v.path), 'trivial': v.trivial,
-                'goal': (str(vc.goal)[:600] if v.status != 'discharged' else None),
-            })
+        verdicts = discharge_all(fr.vcs, use_cvc5, sub)
         return {
             'func': func, 'status': fr.status, 'message': fr.message, 'paths': fr.paths,
             'exits': fr.exits, 'inlined': fr.inlined, 'contracts_used': fr.contracts_used,
@@ -59,7 +108,8 @@ def _work(arg):
 
 def run_specs(modules, funcs, jobs=None, use_cvc5=True):
     jobs = jobs or min(16, max(1, len(funcs)))
-    args = [(modules, f, use_cvc5) for f in funcs]
+    sub = max(1, min(8, 16 // max(1, min(len(funcs), jobs))))
+    args = [(modules, f, use_cvc5, sub) for f in funcs]
     if jobs == 1 or len(funcs) == 1:
         return [_work(a) for a in args]
     ctxm = mp.get_context('fork')
@@ -70,7 +120,8 @@ def run_specs(modules, funcs, jobs=None, use_cvc5=True):
 def main(argv):
     modules = argv[0].split(',')
     reg, specs = build_registry(modules)
-    funcs = [s.func for s in specs if not argv[1:] or any(a in s.func for a in argv[1:])]
+    funcs = [s.key for s in specs if getattr(s, 'verify', True) and
+             (not argv[1:] or any(a in s.key for a in argv[1:]))]
     results = run_specs(modules, funcs)
     for r in results:
         nd = sum(1 for v in r['verdicts'] if v['status'] == 'discharged')
